@@ -696,7 +696,8 @@ func regRun(e *Env) {
 		{":" + strings.Repeat("L", 480), strings.Repeat("L", 480)}, {":12345", "12345"},
 		{":" + strings.Repeat("M", 507), strings.Repeat("M", 507)}, {":" + strings.Repeat("N", 600) + " end", strings.Repeat("N", 600) + " end"},
 		{":" + strings.Repeat("O", 5000), strings.Repeat("O", 5000)},
-		{":abc ", "abc "}, {":   ", "   "}, {":tab\t", "tab\t"}, {": lead and trail  ", " lead and trail  "}}
+		{":abc ", "abc "}, {":   ", "   "}, {":tab\t", "tab\t"}, {": lead and trail  ", " lead and trail  "},
+		{":100%", "100%"}, {":50%done %s %d %v", "50%done %s %d %v"}, {":%!(NOVERB)%%", "%!(NOVERB)%%"}, {"a%20b", "a%20b"}}
 	slowServer := sslMode == 0 && g.Pct(40)
 	e.LinkPlan = func(l *simnet.Link) {
 		l.ChunkMode = g.Intn(4)
